@@ -1,3 +1,94 @@
-(* C10 placeholder: statements follow *)
+(* C10 — Downlink NAS messages from a conformant AMF are recovered exactly.
+   Statements only; proofs in Proofs/CountProofs.v, Proofs/NasSecProofs.v.
+   Model: Model/Count.v, Model/NasSec.v (tglib.NASDecode as called by GetNasPdu: nas_decode, get_nas_pdu; histories: hrun).
+   Specification: Spec/RefNasPeer.v (the AMF as a downlink sender: dl_send, dl_history, built on [protect] with DIRECTION = downlink).
+   [enc] / [mac] stand for security.NASEncrypt / NASMacCalculate; the theorems hold for any two functions with
+     mac_len4  the MAC has 4 octets                   (C07: c07_nas_mac_is_spec + eia1 / eia2 return 4 octets)
+     enc_inv   deciphering inverts ciphering           (C07: c07_cipher_involutive, okp p := |p| < 536870909)
+   The received MAC is computed but never compared by the code, so no hypothesis about MAC verification appears. *)
 From Coq Require Import NArith List Bool.
-Require Import Bytes Count NasSec RefNasPeer NasSecInst.
+Require Import Bytes Count NasSec RefNasPeer Security NasSecInst CountProofs NasSecProofs.
+Import ListNotations.
+Open Scope N_scope.
+
+Definition alg := N -> list N -> N -> N -> N -> list N -> option (list N).
+
+(* ---- (a) the COUNT estimate NASDecode forms (if SQN() > sqn { SetOverflow(Overflow()+1) }; SetSQN(sqn)), as
+   arithmetic, for every stored value and every received sequence number *)
+Theorem c10_estimate_arith :
+  forall c s, c < 16777216 -> s < 256 ->
+    cnt_estimate c s = ((if s <? c mod 256 then c / 256 + 1 else c / 256) mod 65536) * 256 + s.
+Proof. exact cnt_estimate_arith. Qed.
+Print Assumptions c10_estimate_arith.
+
+(* it equals the sender's COUNT whenever that COUNT is 1..255 ahead of the stored one, modulo 2^24: the overflow
+   counter is incremented exactly when the sequence number wraps, including the wrap of the overflow counter itself *)
+Theorem c10_estimate_is_sender_count :
+  forall c d, c < 16777216 -> 1 <= d -> d <= 255 ->
+    cnt_estimate c (((c + d) mod 16777216) mod 256) = (c + d) mod 16777216.
+Proof. exact cnt_estimate_advance. Qed.
+Print Assumptions c10_estimate_is_sender_count.
+
+(* a new-context header (Set(0,0) first) makes the estimate the message's sequence number with overflow 0,
+   whatever was stored *)
+Theorem c10_new_context_resets_estimate :
+  forall c s, c < 16777216 -> s < 256 -> cnt_estimate (cnt_set c 0 0) s = s.
+Proof. exact cnt_estimate_after_reset. Qed.
+Print Assumptions c10_new_context_resets_estimate.
+
+(* ---- (b) one message of the reference AMF: plain (header type 0), integrity protected (1, 3: in clear) or integrity
+   protected and ciphered (2, 4), COUNT = last + d or 0 for a new context: the octets handed to the plain decoder are
+   the plain message and DLCount becomes the AMF's COUNT *)
+Theorem c10_message_recovered :
+  forall (enc mac:alg) (okp:list N -> Prop) st plain hdr d c pkt,
+    wf st -> ia st <> 0 -> dl_op_ok okp (plain, hdr, d) ->
+    (forall c d m t, mac (ia st) (kint st) c 1 d m = Some t -> length t = 4%nat) ->
+    (forall c d p q, okp p -> enc (ea st) (kenc st) c 1 d p = Some q -> enc (ea st) (kenc st) c 1 d q = Some p) ->
+    dl_send enc mac (ctx_of st) (dl st) plain hdr d = (c, Some pkt) ->
+    get_nas_pdu enc mac st pkt = (with_dl st c, Ok plain).
+Proof. exact get_nas_pdu_recovers. Qed.
+Print Assumptions c10_message_recovered.
+
+(* ---- (c) ALL downlink histories (plain, hdr in 0..4, advance d in 1..255): after every message the recovered octets
+   are the plain message the AMF protected, DLCount is the COUNT the AMF used for it, ULCount is untouched *)
+Theorem c10_history_recovered :
+  forall (enc mac:alg) (okp:list N -> Prop) (ops:dl_ops) st,
+    wf st -> ia st <> 0 -> Forall (dl_op_ok okp) ops ->
+    (forall c d m t, mac (ia st) (kint st) c 1 d m = Some t -> length t = 4%nat) ->
+    (forall c d p q, okp p -> enc (ea st) (kenc st) c 1 d p = Some q -> enc (ea st) (kenc st) c 1 d q = Some p) ->
+    let sent := dl_history enc mac (ctx_of st) (dl st) ops in
+    all_some (map snd sent) ->
+    hrun enc mac st (map (fun x => HRecv (unsome (snd x))) sent) = dl_expected (ul st) ops sent.
+Proof. exact dl_history_recovered. Qed.
+Print Assumptions c10_history_recovered.
+
+(* ---- non-vacuity *)
+Example c10_hypotheses_satisfiable :
+  (forall a k c b d m t, toy_mac a k c b d m = Some t -> length t = 4%nat) /\
+  (forall a k c b d p q, toy_enc a k c b d p = Some q -> toy_enc a k c b d q = Some p).
+Proof. exact (conj toy_mac_len4 toy_enc_inv). Qed.
+
+(* the reference AMF with the 3GPP algorithms (Spec/TS33401B.v) against the model with the Go algorithms
+   (Model/Security.v), a history that wraps the sequence number twice, crosses 2^24-1 -> 0 and takes a new context *)
+Definition c10_k1 : bytes := [0;1;2;3;4;5;6;7;8;9;10;11;12;13;14;15].
+Definition c10_k2 : bytes := [16;17;18;19;20;21;22;23;24;25;26;27;28;29;30;31].
+Definition c10_msg : list N := [0x7e;0;0x5e;0x77;0;9;0x15;0x11;0;0;0;0;0;0;0].
+Definition c10_ops : dl_ops :=
+  [(c10_msg, 2, 200); ([0x7e;0;0x43], 1, 255); ([0x7e;0;0x55], 0, 9); (c10_msg, 2, 100); ([0x7e;0;0x43], 4, 1); (c10_msg, 2, 255)].
+Definition c10_st0 : ue_state := mk_ue 5 (16777216 - 300) 2 2 c10_k1 c10_k2.
+Example c10_history_instance :
+  wf c10_st0 /\ ia c10_st0 <> 0 /\ Forall (dl_op_ok (fun _ => True)) c10_ops /\
+  let sent := dl_history nea_s nia_s (ctx_of c10_st0) (dl c10_st0) c10_ops in
+  map fst sent = [16777116; 155; 155; 255; 0; 255] /\
+  hrun_x c10_st0 (map (fun x => HRecv (unsome (snd x))) sent) = dl_expected 5 c10_ops sent.
+Proof.
+  split; [split; vm_compute; reflexivity|].
+  split; [vm_compute; discriminate|].
+  split; [repeat constructor; vm_compute; try reflexivity; discriminate|].
+  cbv zeta. split; vm_compute; reflexivity.
+Qed.
+
+(* recorded, outside the statement: the MAC of a received message is computed and a mismatch only printed *)
+Example c10_wrong_mac_is_not_rejected :
+  snd (get_nas_pdu_x (init_ue 2 2 c10_k1 c10_k2) [0x7e; 1; 0xde; 0xad; 0xbe; 0xef; 7; 0x7e; 0; 0x43]) = Ok [0x7e; 0; 0x43].
+Proof. vm_compute. reflexivity. Qed.
